@@ -77,6 +77,24 @@ def r1_replaceable(ctx):
         ctx.ob("R19.1", "update_default:every-accepted-push-is-stored", okall, "", "every Ok(()) of update_default is preceded by the store" if okall else
                "update_default can return Ok without storing the pushed scheme (an early return, e.g. a 'nothing changed' shortcut): the cell stays empty, so sessions opened afterwards fall back to the "
                "client's configured scheme, announce the old md5 and are pushed the scheme again", path=None if okall else render_path(up, p))
+    # a rejected push changes nothing: no write to the cell on a path that ends in the error return
+    err_rets = [bi for kind, bi, si, rv in up.defs().get(0, []) if (kind == "assign" and rv["r"] == "aggregate" and rv["kind"].get("variant") == "Err")
+                or (kind == "call" and (rv["func"].get("c", {}).get("fn") or "").endswith("from_residual"))]
+    muts = list(store_blocks)
+    for c in up.calls():
+        if (c.norm or "").split("::")[-1] in ("take", "replace", "insert", "get_or_insert", "get_or_insert_with", "clear", "swap") and c.args:
+            t0 = ou.of_operand(c.args[0])
+            ts = [t0] + [ou.init_of(s_[2]) for s_ in subterms(t0) if isinstance(s_, tuple) and s_ and s_[0] == "var" and len(s_) > 2]
+            if any(_term_statics(ou, t_) for t_ in ts):
+                muts.append(c.bb)
+    if err_rets:
+        leak = [m for m in muts if cfgu.reach([m]) & set(err_rets)]
+        ctx.ob("R19.1", "update_default:rejected-push-leaves-the-cell-alone", not leak, "",
+               "no write to the cell can be followed by the error return (%d writes, %d error exits)" % (len(muts), len(err_rets)) if not leak else
+               "the cell is modified (line %s) on a path that can still end in the error return: an unparseable push wipes or replaces the scheme adopted earlier, so sessions opened afterwards fall back to the "
+               "configured scheme" % up.blocks[leak[0]]["tspan"]["line"])
+    else:
+        ctx.missing("R19.1", "error return of update_default")
     # the stored value is the parsed pushed scheme
     newc = calls_norm(up, "PaddingFactory::new")
     okn = bool(newc) and var_name(ou.of_operand(newc[0].args[0])) == "raw_scheme"
@@ -133,6 +151,27 @@ def r3_server_push(ctx):
             ws.append((c, t))
     if not ctx.floor("R19.3", "UpdatePaddingScheme write in the Settings arm", len(ws), 1):
         return
+    # whether the client's announced md5 is compared at all must depend on nothing but the presence of that key: not on the
+    # protocol version or any other setting the client sent
+    cmp_blocks = [c_.block for c_ in conds.all() if c_.kind == "bool" and is_call_term(c_.term, "::ne", "::eq") and "padding-md5" in fmt(c_.term)]
+    foreign = []
+    for cb in cmp_blocks:
+        for d2 in conds.all():
+            if d2.block == cb:
+                continue
+            for lab in {x for v in d2.by_succ.values() for x in v}:
+                e = d2.edges_for(lab)
+                if not e or not cfg.edges_dominate(e, cb):
+                    continue
+                for s_ in subterms(d2.term):
+                    if is_call_term(s_, "StringMap::get") and len(s_[3]) > 1 and "padding-md5" not in fmt(s_[3][1]):
+                        foreign.append((d2, fmt(s_[3][1])))
+                    if isinstance(s_, tuple) and s_ and s_[0] == "var" and "peer_version" in str(s_[1]):
+                        foreign.append((d2, "self.peer_version"))
+    if cmp_blocks:
+        ctx.ob("R19.3", "Settings-arm:md5-comparison-independent-of-other-settings", not foreign, "",
+               "the comparison is reached whenever the client sent a padding-md5, whatever else it sent" if not foreign else
+               "the md5 comparison (and with it the push) is only reached under a test of %s: a client that announces another scheme but a different protocol version (v=1, or no `v`) is never sent the server's scheme" % foreign[0][1])
     c, t = ws[0]
     ok = bool(ne_true) and cfg.edges_dominate(ne_true, c.bb)
     ctx.ob("R19.3", "Settings-arm:push-on-md5-mismatch", ok, c.site, "the push is dominated by the not-equal edge of the md5 comparison" if ok else "the scheme is pushed regardless of / never on an md5 mismatch")
@@ -211,6 +250,8 @@ def r7_scheme_identity(ctx):
 def run(ctx):
     from . import C05
     r7_scheme_identity(ctx)
+    from . import C10
+    C10.r8_version_independent_of_padding(ctx)   # and conversely: the push does not depend on the protocol version the client announced
     C05.r3_role(ctx)      # what gates shaping besides the packet index is a per-role constant (no sticky per-session latch)
     C05.r2_stop(ctx)      # stop() and the sizes come from the scheme currently installed in the session
     r1_replaceable(ctx)
